@@ -97,7 +97,7 @@ func RunProvider(t *testing.T, spec ProvSpec, stats *Stats) (res *RunResult) {
 
 func RunProviderReplay(t *testing.T, rf *ReplayFile, verbose bool) *RunResult {
 	spec := ProvSpec{Seed: rf.RunSeed, Prop: rf.Property, Replay: rf.Streams, MaxOps: rf.MaxScans, KeepLog: verbose}
-	if spec.Replay == nil {
+	if spec.Replay == nil && !rf.Generate {
 		spec.Replay = map[string][]uint32{}
 	}
 	if rf.Variant != "" {
